@@ -1,0 +1,7 @@
+//go:build verif
+
+package route
+
+// simNoListen: simulation builds never open a socket (a real socket cannot be
+// part of a testing/synctest bubble); the harness calls the handler directly.
+const simNoListen = true
